@@ -317,6 +317,30 @@ Definition lz4_decode (rawdec : bytes -> Z -> option bytes) (data : bytes) : opt
 Definition lz4_codec (rawenc : bytes -> option bytes) (rawdec : bytes -> Z -> option bytes) : codec :=
   mkCodec name_lz4 (lz4_encode rawenc) (lz4_decode rawdec).
 
+(* ---- SnappyCompressor -------------------------------------------------------------------------------- *)
+(* snappy.DecodedLen = binary.Uvarint of the block's preamble: little-endian base 128, at most 10 bytes for a
+   uint64 (overflow => error), then v > 0xffffffff => error.  None = ErrCorrupt.  (Library code: modelled only
+   to state what the length header of a snappy body is; checked against the library by the harness.) *)
+Fixpoint uvarint (fuel : nat) (src : bytes) (x s : Z) : option Z :=
+  match fuel, src with
+  | O, _ => None                                   (* i == MaxVarintLen64: overflow *)
+  | _, [] => None                                  (* buffer too small *)
+  | S fuel', b :: src' =>
+      if b <? 128 then
+        (if (fuel' =? 0)%nat && (b >? 1) then None  (* i == 9 && b > 1: overflow *)
+         else Some (Z.lor x (Z.shiftl b s)))
+      else uvarint fuel' src' (Z.lor x (Z.shiftl (Z.land b 127) s)) (s + 7)
+  end.
+
+Definition snappy_decoded_len (src : bytes) : option Z :=
+  match uvarint 10 src 0 0 with
+  | Some v => if v >? 4294967295 then None else Some v
+  | None => None
+  end.
+
+(* SnappyCompressor.Encode / Decode are the library's Encode / Decode *)
+Definition snappy_codec (libenc libdec : bytes -> option bytes) : codec := mkCodec name_snappy libenc libdec.
+
 (* ---- small concrete compressors (mirrored one to one in the harness; also used as witnesses) -- *)
 Definition ident_codec : codec := mkCodec [105; 100] (fun b => Some b) (fun b => Some b).
 
